@@ -200,8 +200,10 @@ def check(out, report, count):
             p = int(e.f[3])
             # A resume(p) whose request is still in flight may have been served after this suspend (requests of one
             # scheduling round overlap in the log): p may be running again, nothing is demanded of it.
+            qs = max([q.i for q, r in pairs if r is e] or [e.i])
+            overlap = any(q.f[2] == "resume" and int(q.f[3]) == p and q.i < e.i and (r is None or r.i > qs) for q, r in pairs)
             if p not in susp_flag and alive_at(p, e.i):
-                if resume_inflight.get(p):
+                if resume_inflight.get(p) or overlap:
                     count("suspend.ambiguous_resume_in_flight")
                 else:
                     susp_flag[p] = e
